@@ -93,10 +93,13 @@ func verifH_C13_body_readable() {
 	verifReach("end")
 }
 
-//verif:harness id=C13 tier=quick,thorough witness=end bounds="parameter defaults: query / header / cookie parameter with schema integer default 7 / 7.0 / 1000000.0 (as decoded from JSON), string default 'd', or array of integers default [1,2] (style form/spaceDelimited/pipeDelimited, explode on/off); parameter absent, present with a value, or present but empty; declared on the operation, on the path item, or on the path item behind a parameter the operation overrides; SkipSettingDefaults on/off; after ValidateRequest the forwarded request carries the default exactly when it was absent and defaults are on; validating the forwarded request again succeeds and changes nothing; decoding the parameter again yields the default"
+//verif:harness id=C13 tier=quick,thorough witness=end bounds="parameter defaults: query / header / cookie parameter with schema integer default 7 / 7.0 / 1000000.0 (as decoded from JSON), string default 'd', array of integers default [1,2] (style form/spaceDelimited/pipeDelimited, explode on/off), or object default {a:1,b:x} (query deepObject / form exploded or not, header simple exploded or not); parameter absent, present with a value, or present but empty; declared on the operation, on the path item, or on the path item behind a parameter the operation overrides; SkipSettingDefaults on/off; after ValidateRequest the forwarded request carries the default exactly when it was absent and defaults are on; validating the forwarded request again succeeds and changes nothing; decoding the parameter again yields the default"
 func verifH_C13_param_defaults() {
 	in := []string{"query", "header", "cookie"}[verifChoose("in", 3)]
-	shape := verifChoose("shape", 3)
+	shape := verifChoose("shape", 4)
+	if shape == 3 && in == "cookie" {
+		return // objects in cookies: outside the bound
+	}
 	var schema *openapi3.Schema
 	var wantDecoded any
 	switch shape {
@@ -119,8 +122,27 @@ func verifH_C13_param_defaults() {
 	case 2:
 		schema = &openapi3.Schema{Type: &openapi3.Types{"array"}, Items: &openapi3.SchemaRef{Value: &openapi3.Schema{Type: &openapi3.Types{"integer"}}}, Default: []any{1, 2}}
 		wantDecoded = []any{int64(1), int64(2)}
+	case 3:
+		// an object default (as decoded from JSON)
+		schema = &openapi3.Schema{Type: &openapi3.Types{"object"}, Properties: openapi3.Schemas{"a": {Value: &openapi3.Schema{Type: &openapi3.Types{"integer"}}}, "b": {Value: &openapi3.Schema{Type: &openapi3.Types{"string"}}}},
+			Default: map[string]any{"a": 1.0, "b": "x"}}
+		wantDecoded = map[string]any{"a": int64(1), "b": "x"}
 	}
 	param := &openapi3.Parameter{Name: "P", In: in, Schema: &openapi3.SchemaRef{Value: schema}}
+	if in == "query" && shape == 3 {
+		param.Style = []string{"deepObject", "form", "form"}[verifChoose("ostyle", 3)]
+		if verifChoose("oexplode", 2) == 1 || param.Style == "deepObject" {
+			t := true
+			param.Explode = &t
+		} else {
+			f := false
+			param.Explode = &f
+		}
+	}
+	if in == "header" && shape == 3 && verifChoose("hexplode", 2) == 1 {
+		t := true
+		param.Explode = &t
+	}
 	if in == "cookie" && shape == 2 {
 		f := false
 		param.Explode = &f // arrays in cookies are only defined non-exploded
@@ -158,14 +180,34 @@ func verifH_C13_param_defaults() {
 	req := &http.Request{Method: "GET", Header: http.Header{}, URL: &url.URL{Path: "/"}}
 	presence := verifChoose("present", 3) // 0 absent, 1 present with a value, 2 present but empty
 	present := presence == 1
+	if shape == 3 && presence == 2 {
+		return // an object sent empty: outside the bound
+	}
 	if presence != 0 {
 		text := []string{"", "5", ""}[presence]
-		switch in {
-		case "query":
+		if shape == 3 {
+			// the object {a: 5} in the parameter's serialisation
+			explode := param.Explode != nil && *param.Explode
+			switch {
+			case in == "query" && param.Style == "deepObject":
+				req.URL.RawQuery = "P%5Ba%5D=5"
+			case in == "query" && explode:
+				req.URL.RawQuery = "a=5"
+			case in == "query":
+				req.URL.RawQuery = "P=a,5"
+			case explode:
+				req.Header["P"] = []string{"a=5"}
+			default:
+				req.Header["P"] = []string{"a,5"}
+			}
+		}
+		switch {
+		case shape == 3:
+		case in == "query":
 			req.URL.RawQuery = "P=" + text
-		case "header":
+		case in == "header":
 			req.Header["P"] = []string{text}
-		case "cookie":
+		case in == "cookie":
 			req.Header["Cookie"] = []string{"P=" + text}
 		}
 	}
@@ -203,6 +245,19 @@ func verifH_C13_param_defaults() {
 }
 
 func verifSameJSON(a, b any) bool {
+	if ma, ok := a.(map[string]any); ok {
+		mb, ok2 := b.(map[string]any)
+		if !ok2 || len(ma) != len(mb) {
+			return false
+		}
+		for k, v := range ma {
+			w, has := mb[k]
+			if !has || !verifSame(v, w) {
+				return false
+			}
+		}
+		return true
+	}
 	x, ok1 := a.([]any)
 	y, ok2 := b.([]any)
 	if ok1 || ok2 {
